@@ -547,3 +547,44 @@ def e6(ctx):
     obs.append(Ob('E6', 'persistent/no-expire', not bad, 'persistent containers pass an expiry to the cache: elements '
                   'would vanish', 'diskcache/persistent.py:%d' % (bad[0].lineno if bad else 1)))
     return obs
+
+
+# ---------------------------------------------------------------------- E7
+@rule('E7', floor=4, title='every operation that adds bytes (row insert / full row overwrite) runs the per-write cull in the same block')
+def e7(ctx):
+    """The size limit is only enforced by the cull that follows each write: a writing method that skips it lets the
+    cache grow past its limit for as long as callers use that method."""
+    h = _cull_helper(ctx)
+    sites = {}
+    for f in core_entries(ctx):
+        if f.cls != 'Cache' or f.name.startswith('_') and not f.name.startswith('__'):
+            continue
+        for p in ctx.paths(f, 'default'):
+            if p.kind != 'return':
+                continue
+            tr = p.trace
+            grows = []
+            for e in sql_events(tr):
+                st = e.d['stmt']
+                if st is None or (st.table or '') != 'Cache':
+                    continue
+                cols = {c for c, _ in st.assigns}
+                if st.kind == 'insert' or (st.kind == 'update' and 'size' in cols and 'value' in cols):
+                    grows.append(e)
+            if not grows:
+                continue
+            last = grows[-1]
+            culled = any(e.kind == 'CALL' and any(t is h for t in e.d['targets']) and e.seq > last.seq
+                         and e.txn and last.txn and e.txn[0] == last.txn[0] for e in tr)
+            info = sites.setdefault(f.qual, {'f': f, 'ok': True, 'wit': None, 'n': 0})
+            info['n'] += 1
+            if not culled:
+                info['ok'] = False
+                info['wit'] = info['wit'] or fmt_trace(tr)
+    obs = []
+    for q, info in sorted(sites.items()):
+        obs.append(Ob('E7', '%s/culls-after-write' % q.replace('core.', ''), info['ok'],
+                      '%s stores a row (insert or full overwrite) on a path that does not run the per-write cull '
+                      'afterwards in the same transaction block: writes through this method never evict, so the cache '
+                      'grows past its size limit' % q, info['f'].loc(), info['wit']))
+    return obs
